@@ -10,10 +10,11 @@ import (
 
 // TestVerifC01Block: the same exact differential as TestVerifC01PQ for a queue with blockOnOverflow=true.
 // An Offer that finds the queue full runs in its own goroutine and parks in hasMoreSpace.Wait; synctest.Wait()
-// (run until every goroutine is durably blocked) makes the schedule deterministic.  When a later operation signals
-// the condition, the oldest waiter (cond.waiters is FIFO) wakes up; its storage calls are held at a gate until the
-// harness has written the observation of the signalling operation, then released one by one (`op wake`), with
-// deaths injected after the k-th call like everywhere else.
+// (run until every goroutine is durably blocked) makes the schedule deterministic.  When a later operation wakes
+// producers (hasMoreSpace.Broadcast: all of them), they are parked at a gate in the condition's injectable Locker, not
+// holding the queue mutex, until the harness has written the observation of the waking operation; then the harness lets
+// them re-lock one at a time in an order it chooses (`op wake j=…` = model labels `promote j`, `wake`), with deaths
+// injected after the k-th storage call like everywhere else.
 func TestVerifC01Block(t *testing.T) {
 	out := vOpen(t)
 	defer out.Close()
@@ -26,15 +27,6 @@ func TestVerifC01Block(t *testing.T) {
 		vC01Progress.Add(1)
 		synctest.Test(t, func(t *testing.T) { vC01BlockCase(out, c) })
 	}
-}
-
-func vC01HasChan(ws []chan struct{}, ch chan struct{}) bool {
-	for _, w := range ws {
-		if w == ch {
-			return true
-		}
-	}
-	return false
 }
 
 func vC01BlockCase(out *vOut, c int) {
@@ -50,17 +42,23 @@ func vC01BlockCase(out *vOut, c int) {
 	r.block = true
 	r.settle = synctest.Wait
 	wakes := 0
-	for i := 0; i < length; i++ {
-		var head chan struct{}
-		if r.alive() && len(r.pq.hasMoreSpace.waiters) > 0 {
-			head = r.pq.hasMoreSpace.waiters[0]
+	idxOf := func(p *vC01Pending) int {
+		for j, q := range r.pending {
+			if q == p {
+				return j
+			}
 		}
+		return -1
+	}
+	for i := 0; i < length; i++ {
 		if r.alive() && len(r.pending) > 0 && rnd.IntN(12) == 0 {
-			// the caller of a blocked Offer gives up
+			// the caller of a blocked Offer gives up: its Wait returns through the ctx branch and re-locks the queue
 			j := rnd.IntN(len(r.pending))
 			p := r.pending[j]
 			r.out.Linef("op cancel j=%d", j)
 			p.cancel()
+			synctest.Wait()
+			r.locker.release(p.gid)
 			synctest.Wait()
 			<-p.done
 			r.pending = append(r.pending[:j:j], r.pending[j+1:]...)
@@ -70,68 +68,75 @@ func vC01BlockCase(out *vOut, c int) {
 			continue
 		}
 		op := r.randomOp0(rnd, pDie)
-		if op.kind == "start" {
-			r.do(op)
-			if r.alive() {
-				r.cl.gate = make(chan struct{})
-			}
+		r.do(op)
+		if op.kind == "start" && r.alive() {
+			r.locker = &vC01GateLocker{mu: &r.pq.mu, parked: map[uint64]chan struct{}{}}
+			r.pq.hasMoreSpace.L = r.locker
 			continue
 		}
-		r.do(op)
 		if !r.alive() {
 			continue
 		}
 		synctest.Wait()
-		if head == nil || len(r.pending) == 0 || vC01HasChan(r.pq.hasMoreSpace.waiters, head) {
-			continue
-		}
-		// the oldest waiter was signalled
-		wakes++
-		p := r.pending[0]
-		die := 0
-		if rnd.IntN(100) < pDie {
-			die = 1 + rnd.IntN(2)
-		}
-		r.nops++
-		r.stats["op_wake"]++
-		r.out.Linef("op wake id=%d die=%d errs=-", p.id, die)
-		if r.cl.gateWaiting == 0 {
-			// still no room: it went round the loop and waits again, now as the youngest waiter
-			r.pending = append(r.pending[1:], p)
-			r.stats["wake_reblocked"]++
-			r.obs("blocked")
-			continue
-		}
-		r.cl.armed = die
-		finished := false
-		for k := 0; k < 4 && !finished; k++ {
-			if r.cl.gateWaiting > 0 {
-				r.cl.gate <- struct{}{}
+		// every producer that the operation woke (Broadcast: all of them) is parked at the locker gate now; the harness lets
+		// them re-lock one by one in an order of its own choice and tells the model which one (`j` = position among the
+		// blocked offers): admitted -> `ok`, still no room -> it registers again as the youngest waiter -> `blocked`
+		var woken []*vC01Pending
+		for _, p := range r.pending {
+			if r.locker.isParked(p.gid) {
+				woken = append(woken, p)
 			}
+		}
+		if len(woken) > 1 {
+			r.stats["ops_that_woke_several_producers"]++
+		}
+		rnd.Shuffle(len(woken), func(a, b int) { woken[a], woken[b] = woken[b], woken[a] })
+		for _, p := range woken {
+			if !r.alive() {
+				break
+			}
+			j := idxOf(p)
+			wakes++
+			die := 0
+			if rnd.IntN(100) < pDie {
+				die = 1 + rnd.IntN(2)
+			}
+			r.nops++
+			r.stats["op_wake"]++
+			if j > 0 {
+				r.stats["wake_of_a_younger_producer_first"]++
+			}
+			r.out.Linef("op wake j=%d id=%d die=%d errs=-", j, p.id, die)
+			r.cl.armed = die
+			r.cl.opCalls = 0
+			r.locker.release(p.gid)
 			synctest.Wait()
+			r.cl.armed = 0
+			finished := false
 			select {
 			case <-p.done:
 				finished = true
 			default:
 			}
-		}
-		r.cl.armed = 0
-		r.pending = r.pending[1:]
-		switch {
-		case p.died:
-			r.deaths++
-			r.stats["death_in_wake"]++
-			r.kill()
-			r.obs("died")
-		case !finished:
-			r.out.Linef("viol sig=C01/block/woken-offer-did-not-finish id=%d", p.id)
-			r.obs("err")
-		case p.err == nil:
-			r.acceptedIDs[p.id] = true
-			r.stats["wake_accepted"]++
-			r.obs("ok")
-		default:
-			r.obs("err")
+			r.pending = append(r.pending[:j:j], r.pending[j+1:]...)
+			switch {
+			case p.died:
+				r.deaths++
+				r.stats["death_in_wake"]++
+				r.kill()
+				r.obs("died")
+			case !finished:
+				// still no room: it went round the loop and waits again, now as the youngest waiter
+				r.pending = append(r.pending, p)
+				r.stats["wake_reblocked"]++
+				r.obs("blocked")
+			case p.err == nil:
+				r.acceptedIDs[p.id] = true
+				r.stats["wake_accepted"]++
+				r.obs("ok")
+			default:
+				r.obs("err")
+			}
 		}
 	}
 	if wakes > 0 {
